@@ -52,10 +52,12 @@ impl Scenario for Lifecycle {
             SizeClass::Window
         } else if self.prop == "C10" && rng.below(400) == 0 {
             SizeClass::LongRun
+        } else if (self.prop == "C01" || self.prop == "C02") && rng.below(2500) == 0 {
+            SizeClass::ManyRegular
         } else {
             draw_size(rng, self.huge_pct)
         };
-        let ic = draw_ic(rng, size == SizeClass::Huge || size == SizeClass::Window);
+        let ic = if size == SizeClass::ManyRegular { *rng.pick(&[2u8, 4, 2, 4, 1]) } else { draw_ic(rng, size == SizeClass::Huge || size == SizeClass::Window) };
         let a = draw_archive(rng, size, ic);
         let wface = Face::draw(rng);
         let rface = Face::draw(rng);
